@@ -47,10 +47,20 @@ def main(argv=None):
         return ctx.finish()
     except env.MachineryError as e:
         print(f"MACHINERY-ERROR {pid}: {e}", file=sys.stderr)
+        if ctx.new:
+            # violations that were already established (judged by TLC against recorded cases) stand: a later part
+            # of the check that could not be carried out does not take them back
+            print(f"  ({len(ctx.new)} violation(s) had been established before; they are reported)", file=sys.stderr)
+            ctx.ev.assumptions.append(f"the check ended early with a machinery error after violations were established: {e}")
+            return ctx.finish()
         return 2
     except Exception:
         traceback.print_exc()
         print(f"MACHINERY-ERROR {pid}: unexpected exception in the harness", file=sys.stderr)
+        if ctx.new:
+            print(f"  ({len(ctx.new)} violation(s) had been established before; they are reported)", file=sys.stderr)
+            ctx.ev.assumptions.append("the check ended early with an unexpected harness exception after violations were established")
+            return ctx.finish()
         return 2
 
 
